@@ -13,7 +13,7 @@ import numpy as np
 
 from .. import history, probes
 from ..battery import call, _Raised
-from ..observe import observe
+from ..observe import npize, observe
 
 TIERS = {"quick": 800, "thorough": 60000}
 WATCHDOG_S = {"quick": 900, "thorough": 7200}
@@ -127,11 +127,11 @@ def undirected(ctx, rng, idx, h, edges, phase, force=None):
     k = rng.choice(sizes_present)
     if force:
         sel = None
-    kw = dict(n_steps=n_steps, label=label, detailed=detailed)
+    kw = dict(n_steps=npize(rng, n_steps), label=label, detailed=npize(rng, detailed))
     if sel == "size":
-        kw["size"] = k
+        kw["size"] = npize(rng, k)
     elif sel == "order":
-        kw["order"] = k - 1
+        kw["order"] = npize(rng, k - 1)
     code = probes.find_code(cm._cm_MCMC, "mh_step")
     positional = rng.random() < 0.25
     for seed in (rng.randrange(2**31), rng.randrange(2**31)):
